@@ -493,7 +493,7 @@ def stream_deriv(ctx, only=None):
                     'evalX t / evalX (D b t) / evalX (D b\' (D b t)) (membership decided in Coq); exact-rational oracles for symmetry, BHHH, aggregation, '
                     'the 2x2x2 modes, refusals, named outputs, order-reversing renaming, BIOGEME scaled/unscaled; '
                     'non-trivial = decided entry of a tree with >= 4 nodes; distinct by (tree, row, entry)')
-    cases = only if only is not None else (corpus_cases() + make_cases(ctx, ctx.n(150, 4000)))
+    cases = only if only is not None else (corpus_cases() + make_cases(ctx, ctx.n(150, 3000)))
     import time
     t0 = time.time()
     res = ctx.impl_cases('c02_deriv.py', cases, chunk=ctx.n(10, 40), timeout=1500)
